@@ -91,7 +91,7 @@ GEN_DOMAIN = {'degrees_und': ['wu', 'bu'], 'degrees_dir': ['wd', 'bd'], 'strengt
               'strengths_und_sign': ['su'], 'density_dir': ['bd', 'wd'], 'clustering_coef_bu': ['bu'], 'clustering_coef_bd': ['bd'],
               'clustering_coef_wu': ['wu'], 'clustering_coef_wd': ['wd'], 'clustering_coef_wu_sign': ['su'], 'transitivity_bu': ['bu'], 'transitivity_bd': ['bd'],
               'transitivity_wu': ['wu'], 'transitivity_wd': ['wd'], 'binarize': ['wd', 'su'], 'normalize': ['wd', 'su'], 'invert': ['wd', 'su'],
-              'threshold_absolute': ['wd', 'su'], 'weight_conversion': ['wd', 'su'], 'assortativity_bin': ['bd'], 'assortativity_wei': ['wd'],
+              'threshold_absolute': ['wd', 'su'], 'weight_conversion': ['wd', 'su'], 'assortativity_bin': ['bd', 'su'], 'assortativity_wei': ['wd'],
               'kcore_bu': ['bu'], 'kcore_bd': ['bd'], 'score_wu': ['wu'], 'gtom': ['bu']}
 GEN_SCALARS = {'threshold_absolute': [(0.5,), (0.75,), (-0.25,)], 'kcore_bu': [(1,), (2,), (3,)], 'kcore_bd': [(1,), (2,), (3,)],
                'score_wu': [(1.0,), (1.5,)]}
@@ -452,6 +452,7 @@ def corr_entries(bct, g):
     for fl in (1, 2, 3, 4):
         add('assortativity_bin:%d' % fl, 38, fl, bd, lambda fl=fl: sc(bct.assortativity_bin(bd, fl)), False)
         add('assortativity_wei:%d' % fl, 39, fl, wd, lambda fl=fl: sc(bct.assortativity_wei(wd, fl)), False)
+        add('assortativity_bin:%d:signed' % fl, 38, fl, g['su'], lambda fl=fl: sc(bct.assortativity_bin(g['su'], fl)), False)   # edges = nonzero cells
     if n >= 1:
         add('kcoreness_centrality_bu', 43, max(n - 1, 0), bu, lambda: row(bct.kcoreness_centrality_bu(bu)[0]), True)
         add('kcoreness_centrality_bd', 44, max(n - 1, 0), bd, lambda: row(bct.kcoreness_centrality_bd(bd)[0]), True)
@@ -642,24 +643,34 @@ def gen_correspondence(ctx, bct, cg):
         hand = GEN_HAND.get(t['name'])
         prim = has_prim(t['prog'])
         f = getattr(bct, tg['func'])
-        for g in cg:
+        for gi, g in enumerate(cg):
             for kind in kinds[:1] if (len(cg) > 60 and g['n'] > 5) else kinds:
-                A = g[kind]
-                for ks in GEN_SCALARS.get(tg['func'], [()]):
-                    r, err = safe(lambda: f(A.copy(), *ks, **tg['fixed']))
-                    case = {'generated': t['name'], 'function': tg['func'], 'A': A.tolist(), 'ks': list(ks), 'fixed': tg['fixed']}
-                    if err is not None:
-                        ctx.count('gen_impl_raises:%s:%s' % (tg['func'], err))
-                        continue
-                    w = r[t['index']] if t['index'] is not None else r
-                    w = np.asarray(w, float)
-                    w = w.reshape(1, 1) if w.ndim == 0 else (w.reshape(1, -1) if w.ndim == 1 else w)
-                    kq = [F(k) for k in ks]
-                    lines.append('g %d %s %s %s' % (idx, enc_mat(A.tolist(), enc_q), enc_list([], enc_q), enc_list(kq, enc_q)))
-                    pend.append(('impl', t, w, case, prim))
-                    if hand is not None:
-                        lines.append(enc_case(hand[0], hand[1], A, (), kq))
-                        pend.append(('hand', t, w, case, prim))
+                # dtypes: the model has exact rationals and no dtypes; the implementation is ALSO driven with integer arrays
+                # (every function, a slice of the graphs) and, where the source has a dtype guard the translator merged
+                # (`if not np.issubdtype(W.dtype, np.inexact)`: normalize, invert), with integer and boolean arrays on every graph
+                variants = [('float', g[kind])]
+                if t['dtype_guards'] or gi % 4 == 0:
+                    variants.append(('int', (g[kind] if kind in ('bu', 'bd') else np.round(g[kind] * 4)).astype(int)))
+                if t['dtype_guards']:
+                    variants.append(('bool', g[kind] != 0))
+                for dt, A in variants:
+                    for ks in GEN_SCALARS.get(tg['func'], [()]):
+                        r, err = safe(lambda: f(A.copy(), *ks, **tg['fixed']))
+                        case = {'generated': t['name'], 'function': tg['func'], 'dtype': dt, 'A': A.astype(float).tolist(), 'ks': list(ks), 'fixed': tg['fixed']}
+                        ctx.count('gen_dtype:' + dt)
+                        if err is not None:
+                            ctx.count('gen_impl_raises:%s:%s:%s' % (tg['func'], dt, err))
+                            continue
+                        w = r[t['index']] if t['index'] is not None else r
+                        w = np.asarray(w, float)
+                        w = w.reshape(1, 1) if w.ndim == 0 else (w.reshape(1, -1) if w.ndim == 1 else w)
+                        kq = [F(k) for k in ks]
+                        Af = A.astype(float)
+                        lines.append('g %d %s %s %s' % (idx, enc_mat(Af.tolist(), enc_q), enc_list([], enc_q), enc_list(kq, enc_q)))
+                        pend.append(('impl', t, w, case, prim))
+                        if hand is not None:
+                            lines.append(enc_case(hand[0], hand[1], Af, (), kq))
+                            pend.append(('hand', t, w, case, prim))
     sync = {}
     for idx, t in enumerate(GEN['table']):
         hand = GEN_HAND.get(t['name'])
